@@ -277,6 +277,26 @@ class Unit:
             return self.expr(cx, env, fn.value, lambda v: self.seq(
                 cx, env, node.args, lambda it: self.bindk(
                     cx, "pfind %s %s %s %s" % (v, it[0], it[1], it[2]), k)))
+        # x.endswith(c) / x.startswith(c) for a non-empty constant c is the
+        # slice comparison x[-n:] == c / x[:n] == c (same term either way)
+        if isinstance(fn, ast.Attribute) and \
+                fn.attr in ("endswith", "startswith") and \
+                len(node.args) == 1 and not node.keywords and \
+                isinstance(node.args[0], ast.Constant) and \
+                isinstance(node.args[0].value, (bytes, str)) and \
+                len(node.args[0].value) > 0:
+            size = len(node.args[0].value)
+            if fn.attr == "endswith":
+                sl = ast.Slice(lower=ast.UnaryOp(
+                    op=ast.USub(), operand=ast.Constant(value=size)),
+                    upper=None, step=None)
+            else:
+                sl = ast.Slice(lower=None, upper=ast.Constant(value=size),
+                               step=None)
+            cmp_ = ast.Compare(
+                left=ast.Subscript(value=fn.value, slice=sl, ctx=ast.Load()),
+                ops=[ast.Eq()], comparators=[node.args[0]])
+            return self.expr(cx, env, ast.copy_location(cmp_, node), k)
         if fname == "len" and len(node.args) == 1:
             return self.expr(cx, env, node.args[0], lambda a: self.bindk(
                 cx, "plen %s" % a, k))
